@@ -601,7 +601,7 @@ static void exec_cmd(toks *t) {
     if (strcmp(c, "env") == 0) { ob_puts(&OUT, "{\"locale\":"); ob_jcstr(&OUT, setlocale(LC_NUMERIC, NULL)); ob_printf(&OUT, ",\"round\":%d,\"live\":%ld,\"allocs\":%ld}", fegetround(), wrap_live(), wrap_count()); return; }
     if (strcmp(c, "setlocale") == 0) { NEED(2); { const char *r = setlocale(LC_ALL, t->tok[1]); ob_puts(&OUT, "{\"rc\":0,\"locale\":"); ob_jcstr(&OUT, r); ob_putc(&OUT, '}'); } return; }
     if (strcmp(c, "setround") == 0) { NEED(2); { int m = atoi(t->tok[1]); int modes[4] = { FE_TONEAREST, FE_DOWNWARD, FE_UPWARD, FE_TOWARDZERO }; put_rc(fesetround(modes[m & 3])); } return; }
-    if (strcmp(c, "defconv") == 0) { NEED(2); ucnv_setDefaultName(t->tok[1]); put_rc(0); return; }
+    if (strcmp(c, "defconv") == 0) { NEED(2); ucnv_setDefaultName(t->tok[1]); ob_puts(&OUT, "{\"rc\":0,\"name\":"); ob_jcstr(&OUT, ucnv_getDefaultName()); ob_putc(&OUT, '}'); return; }
     if (strcmp(c, "fault.arm") == 0) { NEED(2); wrap_arm(atol(t->tok[1])); put_rc(0); return; }
     if (strcmp(c, "fault.off") == 0) { int f = wrap_fired(); wrap_arm(0); ob_printf(&OUT, "{\"rc\":0,\"fired\":%d}", f); return; }
     if (strcmp(c, "count.reset") == 0) { wrap_count_reset(); put_rc(0); return; }
